@@ -278,11 +278,16 @@ def check_producers(ctx, rep, loops, only_owner=None, minus_for=None, rule="R-WA
                         else:
                             unbalanced.setdefault(key, (fi, e, p, ci))
         nfound = 0
+        def label(fi, what):
+            # constructs are named by owner class and operation, not by the (private, renameable) function
+            if minus_for is not None:
+                return "%s: %s is followed by %s.set()" % (li.owner.name, what, li.event_field)
+            return "%s: %s is followed by %s.set()" % (fi.qualname, what, li.event_field)
         for key, (fi, e, p) in sorted(good.items()):
             if key in unbalanced:
                 continue
             nfound += 1
-            rep.ob(rule, "%s: %s is followed by %s.set()" % (fi.qualname, key[1], li.event_field), True, "", where_of(e.fn, e.node))
+            rep.ob(rule, label(fi, key[1]), True, "", where_of(e.fn, e.node))
         for key, (fi, e, p, ci) in sorted(unbalanced.items()):
             nfound += 1
             # excused if the mutation happens in a helper and every caller path sets the event afterwards:
@@ -291,7 +296,7 @@ def check_producers(ctx, rep, loops, only_owner=None, minus_for=None, rule="R-WA
             excused = False
             if e.fn is fi and cs:
                 excused = all(((ck, key[1]) in good and (ck, key[1]) not in unbalanced) for ck, _ in cs)
-            rep.ob(rule, "%s: %s is followed by %s.set()" % (fi.qualname, key[1], li.event_field), excused,
+            rep.ob(rule, label(fi, key[1]), excused,
                    "%s changes state the %s waits for, but no %s.set() follows on path [%s]" % (key[1], li.target.qualname, li.event_field, q.path_sig(p)[:100]), where_of(e.fn, e.node), trace_of(p))
         if minus_for is None:
             rep.ob(rule, "%s: has producers" % li.target.qualname, nfound > 0, "no enabling mutation of the scanned state found (analysis anchor)", where_of(li.target))
@@ -320,6 +325,6 @@ def second_waiters(ctx, rep, loops, only_owner=None, rule="R-WAKE-2"):
         if fi.key in seen:
             continue
         seen.add(fi.key)
-        rep.ob(rule, "%s: second waiter on %s" % (fi.qualname, li.event_field), False,
+        rep.ob(rule, "%s: second waiter on %s" % (li.owner.name, li.event_field), False,
                "%s waits on the auto-reset event owned (waited and cleared) by %s: a wake-up consumed by one waiter is lost for the other" % (fi.qualname, li.target.qualname), where_of(fi, e.node), trace_of(p, e.seq))
     return out
